@@ -11,31 +11,31 @@ CHECKS = {
          "Trusts: the runner's panic/crash/timeout capture; M-vm's stack-effect table (bound to the compiler by C04's conformance run). Bounded: inputs outside the families are not covered.",
          "5/C03"),
  "C05": ("bounded-exhaustive program enumeration, every case executed on the real interpreter and compared with the reference evaluator M-eval",
-         "Every program of families E1-E6 (operator x operand-kind pairs, operators applied again to the same operand objects after other applications - E6 'operators have no memory', all operator chains of 3/4 operands in every grouping with minimal and full parentheses, evaluation-order probes, every statement tree up to 4/5 nodes on every input vector) is run on the real VM (fresh interpreter per program, crash-isolated) and must print the lines and end with the outcome/error class M-eval computes; disagreements are confirmed twice in isolation.",
+         "Every program of families E1-E7 (operator x operand-kind pairs, failing statements of 12 shapes run twice with every name involved probed afterwards - E7 'a failing statement changes nothing', operators applied again to the same operand objects after other applications - E6 'operators have no memory', all operator chains of 3/4 operands in every grouping with minimal and full parentheses, evaluation-order probes, every statement tree up to 4/5 nodes on every input vector) is run on the real VM (fresh interpreter per program, crash-isolated) and must print the lines and end with the outcome/error class M-eval computes; disagreements are confirmed twice in isolation.",
          "Trusts M-eval as the language definition (DESIGN.md Appendix A; it agreed with the implementation on every enumerated case when written). Bounded by program size.",
          "5/C05"),
  "C06": ("bounded-exhaustive program enumeration vs the reference evaluator M-eval (cell-based environments), plus metamorphic wrappings",
-         "Every combination of scope kind x exit path x two closures with every read/write action over two variables through 0-2 intermediate function levels, called inside and after the scope; fresh-variable, shadowing, textual-resolution, many-closures, capture-order (F7) and after-return-from-another-module (F8) families; each program also wrapped in a block, a function and a fiber. All run on the real VM and compared with M-eval.",
+         "Every combination of scope kind x exit path x two closures with every read/write action over two variables through 0-2 intermediate function levels, called inside and after the scope; fresh-variable, shadowing, textual-resolution, many-closures, capture-order (F7), after-return-from-another-module (F8) and handled-exception-in-the-owning-frame (F9) families; each program also wrapped in a block, a function and a fiber. All run on the real VM and compared with M-eval.",
          "Trusts M-eval's environment model. Bounded: 2 closures x 2 variables (3x3 in one family), nesting depth 3.",
          "5/C06"),
  "C08": ("bounded-exhaustive program enumeration vs the reference evaluator M-eval; disagreements attributed to listed findings only through trigger predicates on the model's own execution",
-         "Every nest (depth 2 quick / 3 thorough) of try/catch/finally forms, loops, calls and blocks with every leaf action (throws of 4 value kinds, 6 failing built-ins, deep callee throws, callees that return through try/finally or whose finally block itself returns while a return / an exception is waiting, return, break, continue - also out of finally blocks), including nests whose focus sits inside a finally block while a return is pending, and every sequential pair of nests, run on the real VM and compared with M-eval's block trace and outcome.",
+         "Every nest (depth 2 quick / 3 thorough) of try/catch/finally forms, loops, calls and blocks with every leaf action (throws of 4 value kinds, 6 failing built-ins, deep callee throws, callees that return through try/finally or whose finally block itself returns while a return / an exception is waiting, return, break, continue - also out of finally blocks), including nests whose focus sits inside a finally block while a return is pending, every sequential pair of nests, and loops whose body is a pair (a try statement holding a finished inner loop, then an exit statement inside another try statement), run on the real VM and compared with M-eval's block trace and outcome.",
          "No open finding: every case must agree with M-eval exactly (the formerly listed KF-C08-01..04 are repaired in /repo and their witnesses are re-run; the trigger table is empty and a panic is never attributable). Bounded by nest depth.",
          "5/C08"),
  "C07": ("bounded-exhaustive program enumeration vs the reference evaluator M-eval (class chain walks, lexical super)",
-         "Every class hierarchy of depth 1-3 with per-class choices of method m (absent/plain/super call/super value/super call inside a nested lambda; methods report their receiver), n (calls self.m), four constructor forms, probed on instances of the two most derived classes with calls, bound values, arities, unknown members, shadowing fields (closures and nil/false/0), constructors reached through instances and as values, type/derives; static methods and Self; local classes; every non-class superclass; construction rules. Run on the real VM and compared with M-eval.",
+         "Every class hierarchy of depth 1-3 with per-class choices of method m (absent/plain/super call/super value/super call inside a nested lambda; methods report their receiver), n (calls self.m), four constructor forms, probed on instances of the two most derived classes with calls, bound values, arities, unknown members, shadowing fields (closures and nil/false/0), constructors reached through instances and as values, type/derives; static methods and Self; super in instance, static and constructor methods under 5 nestings (lambda, named function, lambda in lambda, escaping lambda) of classes declared in 5 places (top level, function, instance / static method of another class, lambda in a method) - G6; local classes; every non-class superclass; construction rules. Run on the real VM and compared with M-eval.",
          "Trusts M-eval's class model (Appendix A). Bounded: depth 3, two method names.",
          "5/C07"),
  "C14": ("exhaustive enumeration of import graphs (configurations) vs the reference evaluator M-eval with a module table",
-         "All 4096 import graphs over {main,a,b,c} (every edge, self-loop and main edge independently), every import guarded and followed by a use, identity/isolation/built-in probes, plus placement variants (in functions called 0/1/2 times, missing/uncompilable modules caught/uncaught/aliased, directory paths, a 3-cycle) and exceptions that cross module frames (8 ways a module body or a function of another module fails x 3 handler shapes x importer main / a module; after the handler the importer reads, defines and assigns globals and the check confirms where they landed); each run on the real VM with a module loader serving the generated sources and compared with M-eval.",
+         "All 4096 import graphs over {main,a,b,c} (every edge, self-loop and main edge independently), every import guarded and followed by a use, identity/isolation/built-in probes, plus placement variants (in functions called 0/1/2 times, missing/uncompilable modules caught/uncaught/aliased, directory paths, a 3-cycle), a module that defines names built-ins also have and receives attributes from outside, imported again in every ordered pair of six ways with both views printed after each (a later import changes nothing), and exceptions that cross module frames (8 ways a module body or a function of another module fails x 3 handler shapes x importer main / a module; after the handler the importer reads, defines and assigns globals and the check confirms where they landed); each run on the real VM with a module loader serving the generated sources and compared with M-eval.",
          "Trusts M-eval's module model. Importing a module again after its body threw is outside the alphabet (X). Bounded: 3 modules besides main.",
          "5/C14"),
  "C17": ("bounded-exhaustive program enumeration vs M-eval (class, text, kind, full trace) + caught==uncaught differential on the implementation + stray-token line enumeration",
-         "Every call chain of depth <=3/4 over 8 link kinds (function, method, static, lambda, constructor, map/reduce callbacks through the library, fiber) with 12 failing statements at the bottom (in place, in a module function, as a module body), one statement per line: the uncaught report's class, message, ErrorKind and every trace entry must equal M-eval's; the caught variant must see the same class. The same after an earlier, completely handled exception (6 shapes) placed in each active frame (chains to depth 2/3). 26 failing statements (incl. host natives of every ErrorKind) are checked caught==uncaught on the implementation itself; a stray token before every statement of a multi-line program must be reported at its own line.",
+         "Every call chain of depth <=3/4 over 8 link kinds (function, method, static, lambda, constructor, map/reduce callbacks through the library, fiber) with 12 failing statements at the bottom (in place, in a module function, as a module body), one statement per line: the uncaught report's class, message, ErrorKind and every trace entry must equal M-eval's; the caught variant must see the same class. The same after an earlier, completely handled exception (6 shapes) placed in each active frame (chains to depth 2/3). 26 failing statements (incl. host natives of every ErrorKind) are checked caught==uncaught on the implementation itself; a stray token before every statement of a multi-line program must be reported at its own line; a module that does not compile (stray token at 8 places x 5 tokens) must be reported with its name, line and token at every one of nine attempts to import it (seven placements in one program, then two more programs on the same interpreter).",
          "Message texts of built-in errors come from the caught==uncaught differential, not from a table. Uncaught exceptions passing through finally blocks are outside C17's alphabet.",
          "5/C17"),
  "C18": ("bounded-exhaustive program enumeration vs M-eval (model sequences; index-based vec iteration)",
-         "for loops over every vec/tuple of length 0-3, every range with bounds in [-2,3] and 16 ranges with end points at or beyond the largest machine integers, every string up to 2/3 chars over a 1-4-byte alphabet, user-defined iterables (iterator, iterator whose iter() starts over, collection with a separate cursor class); break/continue/return at every position; nested and shared iterators; every map/filter chain to depth 2/3 with 5 callbacks, reduce, collect (on user-defined iterables both through iter() and directly on the object, on a reused object, after a loop left by break); protocol violations; vec mutation at every position. All on the real VM vs M-eval (which runs the library's own Iter/MapIter/FilterIter definitions as AST).",
+         "for loops over every vec/tuple of length 0-3, every range with bounds in [-2,3] and 16 ranges with end points at or beyond the largest machine integers, every string up to 2/3 chars over a 1-4-byte alphabet, user-defined iterables (iterator, iterator whose iter() starts over, collection with a separate cursor class); break/continue/return at every position; nested and shared iterators; every map/filter chain to depth 2/3 with 5 callbacks, reduce, collect (on user-defined iterables both through iter() and directly on the object, on a reused object, after a loop left by break); protocol violations; vec mutation at every position; every ordered pair of ranges with bounds in [-2,3] used one after the other in one interpreter, directly and with nine other ranges in between (ranges have no memory). All on the real VM vs M-eval (which runs the library's own Iter/MapIter/FilterIter definitions as AST).",
          "Trusts M-eval's iteration model (Appendix A).",
          "5/C18"),
  "C13": ("bounded-exhaustive input enumeration vs the byte-exact reference model M-str",
@@ -47,11 +47,11 @@ CHECKS = {
          "Where two shortest digit strings round-trip, the printed text is not compared (tie-breaking is not fixed by the property). Long-literal nearestness relies on the host parser.",
          "5/C19"),
  "C11": ("explicit-state breadth-first search over intern/probe sequences on the real intern table (canonical state = its slot array) + exhaustive producer-pair enumeration through the language",
-         "Level 1: BFS to depth 8/10 over 13/16 keys with designed hashes (low-bit collisions surviving 0/1/2 growths, collisions in the last slot of the table at each size so that probe chains wrap, an identical-full-hash pair, the empty string): every transition replayed on a fresh real table through the hook and compared with a reference map; in every state: no duplicate entry, size = occupied, power-of-two capacity, load <= 0.75, unbroken probe chains, every interned key present with the object first given. Level 2: producer pairs of each target string x filler counts: ==, map and tuple-key selection, one-byte-different strings distinct, host-created names.",
+         "Level 1: BFS to depth 8/10 over 13/16 keys with designed hashes (low-bit collisions surviving 0/1/2 growths, collisions in the last slot of the table at each size so that probe chains wrap, an identical-full-hash pair, the empty string): every transition replayed on a fresh real table through the hook and compared with a reference map; in every state: no duplicate entry, size = occupied, power-of-two capacity, load <= 0.75, unbroken probe chains, every interned key present with the object first given. Level 2: producer pairs of each target string x filler counts: ==, map and tuple-key selection, one-byte-different strings distinct, host-created names. Level 3: growth at every size - after every number 0..800/3200 of filler keys (two hash families) each of eight trigger keys chosen against the table's observed capacity is interned on a fresh copy of the real table; whole slot array vs reference and invariants; lookups repeated after every growth. Level 4: ladders of up to 3500/14000 strings produced twice by different producers and of up to 1600/3200 global names through the language.",
          "Level 1 uses a feature-guarded wrapper mirroring new_gc_obj_string with caller-chosen hashes. The language has no computed field/method names; selection is exercised through maps, tuples, globals.",
          "5/C11"),
  "C12": ("explicit-state breadth-first search over HashMap operation sequences with reference M-map; every transition executed on the real map",
-         "BFS (<=3/4 live entries, depth 4/5) from the empty map and 12 literals over insert/remove with every key of a 25-key pool (key objects reused across operations in one family) (1 vs 1.0, 0 vs -0, separately built equal tuples/strings/ranges, nested tuples, NaN, a class, 5 unhashables) and clear; from a rebuilt copy of every state every operation is executed and followed by a full order-independent dump, then by a write, a read and a removal of a key outside the pool and a second dump (the map must still work after a rejected operation); compared with M-eval's association-list map.",
+         "BFS (<=3/4 live entries, depth 4/5) from the empty map and 12 literals over insert/remove with every key of a 26-key pool (ten other ranges are built before every operation and every dump, so that separately written equal ranges are separate objects) (key objects reused across operations in one family) (1 vs 1.0, 0 vs -0, separately built equal tuples/strings/ranges, a tuple holding a range, nested tuples, NaN, a class, 5 unhashables) and clear; from a rebuilt copy of every state every operation is executed and followed by a full order-independent dump, then by a write, a read and a removal of a key outside the pool and a second dump (the map must still work after a rejected operation); compared with M-eval's association-list map.",
          "keys/values/items are compared through order-independent probes. An overwritten entry keeps the first-inserted key object.",
          "5/C12"),
  "C09": ("explicit-state breadth-first search over the coroutine model M-fiber; every transition replayed on the real VM",
@@ -59,27 +59,27 @@ CHECKS = {
          "Exceptions leaving a fiber's outermost frame end the run (fixed by the repository's own script). Which error class wins when a running fiber is re-entered with a wrong argument count is not fixed by the property and is left out.",
          "5/C09"),
  "C15": ("explicit-state breadth-first search over snippet histories with reference M-repl; every transition replayed on a fresh real interpreter",
-         "BFS over histories (length 5/8) of 36 snippets (a probe of every built-in name; assignments to undefined globals and a failing initialiser, probed for names that must not exist; definitions/uses, compile error, uncaught throws from top level, nested calls, a fiber, a chain of two fibers, try/finally, a half-declared class, a built-in inside a method, after a closure escaped from the failing call frame / fiber; clean try/finally and try/catch probes, probes of the dead fibers and of the escaped closures, a fiber suspended inside try/finally and resumed later, import and module mutation, reset) with canonical model state; each transition is the shortest history to its source state plus the snippet, run on one real Vm; per-snippet output and outcome must equal the model's; no panic; a second family runs every history up to length 3/4 over the whole alphabet without merging by model state (a failing snippet leaves the model state unchanged, so the merging search never runs anything after it); swept objects are quarantined and any touch of freed memory is a violation.",
+         "BFS over histories (length 5/8) of 39 snippets (imports of a module that does not compile and of a module whose body throws, before and after a reset; a probe of every built-in name; assignments to undefined globals and a failing initialiser, probed for names that must not exist; definitions/uses, compile error, uncaught throws from top level, nested calls, a fiber, a chain of two fibers, try/finally, a half-declared class, a built-in inside a method, after a closure escaped from the failing call frame / fiber; clean try/finally and try/catch probes, probes of the dead fibers and of the escaped closures, a fiber suspended inside try/finally and resumed later, import and module mutation, reset) with canonical model state; each transition is the shortest history to its source state plus the snippet, run on one real Vm; per-snippet output and outcome must equal the model's; no panic; a second family runs every history up to length 3/4 over the whole alphabet without merging by model state (a failing snippet leaves the model state unchanged, so the merging search never runs anything after it); swept objects are quarantined and any touch of freed memory is a violation.",
          "Counters bounded to keep the state space finite.",
          "5/C15"),
  "C04": ("explicit-state reachability over the abstract (pc, operand-stack height) space of every compiled function (M-vm) + trace conformance + limit-sized program enumeration",
-         "For each of ~185k functions compiled from the repository scripts, core.yl and the C05/C06/C07/C08/C18 generator corpora, every abstract state (pc, height) is explored (14M states quick) including exceptional and finally-return edges, with the structural invariants of the property checked in every state and one height per pc; with the instruction-trace hook ~190k concretely executed (function, pc, height) points must lie in the abstract set; for every jump kind a body is sized (operand measured from the emitted code) so that the distance is 65534..65537, and every count limit (locals, captures, parameters, arguments, elements, interpolation parts, constants) is straddled: rejected with a compile error or exactly the expected output.",
+         "For each of ~185k functions compiled from the repository scripts, core.yl and the C05/C06/C07/C08/C18 generator corpora, every abstract state (pc, height) is explored (14M states quick) including exceptional and finally-return edges, with the structural invariants of the property checked in every state and one height per pc; with the instruction-trace hook ~190k concretely executed (function, pc, height) points must lie in the abstract set; for every jump kind a body is sized (operand measured from the emitted code) so that the distance is 65534..65537, and every count limit (locals, captures, parameters, arguments, elements, interpolation parts, constants) is straddled: rejected with a compile error or exactly the expected output. A generated program that the model resolver accepts is valid by construction: the compiler rejecting it is a violation, not a skipped case.",
          "No open finding (KF-C04-01, a finally block entered at two heights, is repaired; its witness is re-run). Variable identity on every path is decided behaviourally by C05/C06.",
          "5/C04"),
  "C01": ("exhaustive enumeration of programs x GC schedules on the real collector (schedule hook; swept objects quarantined so every later touch is reported)",
-         "Every heap-shape program (root kind - global, local, closed variable, and three two-run roots: a variable of a frame or fiber that an uncaught error discarded in an earlier run on the same interpreter - x holder chain of length <= 2 over 23 holder kinds - 17 data-structure edges and 6 kinds of transient interpreter state: a return waiting for a finally block, an exception in flight through a finally block, values in transfer between fibers, operands of an unfinished literal or call - x 20 referent kinds, 27k programs) and the C05/C06/C07/C08/C18 corpora plus the C14 (modules) and C17 (error paths) corpora with their module tables run under never (comparison), always (collect at every allocation) and, for the small programs, only{i} for every allocation index (all pairs in the thorough tier): no use-after-free event (dereference of a swept object, open captured variable into a swept fiber stack, object swept while borrowed), output identical to the never-collect run, no crash.",
+         "Every heap-shape program (root kind - global, local, closed variable, and three two-run roots: a variable of a frame or fiber that an uncaught error discarded in an earlier run on the same interpreter - x holder chain of length <= 2 over 29 holder kinds - 17 data-structure edges, 6 operations on temporaries (slice, index, collect, items, values) and 6 kinds of transient interpreter state: a return waiting for a finally block, an exception in flight through a finally block, values in transfer between fibers, operands of an unfinished literal or call - x 20 referent kinds, 27k programs) and the C05/C06/C07/C08/C18 corpora plus the C14 (modules) and C17 (error paths) corpora with their module tables run under never (comparison), always (collect at every allocation) and, for the small programs, only{i} for every allocation index (all pairs in the thorough tier): no use-after-free event (dereference of a swept object, open captured variable into a swept fiber stack, object swept while borrowed), output identical to the never-collect run, no crash.",
          "`always` dominates every other schedule under the quarantine (argued in DESIGN.md and validated by the only{i} runs: 0 counterexamples). No open finding (KF-C01-01 is repaired; its witness is re-run).",
          "5/C01"),
  "C02": ("exhaustive sweeps of built-ins x receivers x adversarial argument tuples, operator constructs x value kinds, and a resource grid, on the real VM in its checked configuration",
-         "Every built-in method on a proper receiver and on an instance of a language-level subclass of the built-in class, with every argument tuple of its arity over a 43-value adversarial pool (incl. tuples holding unhashable values) and neighbouring arities, each call made twice on the same argument objects and required to behave the same; 20 unary and 6 binary constructs over every value / ordered pair; slices over extreme bounds; recursion depth x frame width; nesting ladders to 10^4 on the checked runner and to 2x10^5 / 10^6 on the optimised runner on a thread with an ordinary 8 MiB stack; every uncaught-error program of C17's generator; self-containing data, mutation during iteration, fiber misuse. The run must end Ok or with a reported error, never panic/crash/hang, and a failing built-in call inside try/catch must reach the handler with an error-class instance.",
+         "Every built-in method on a proper receiver and on an instance of a language-level subclass of the built-in class, with every argument tuple of its arity over a 46-value adversarial pool (incl. tuples holding unhashable values, the receiver itself and a tuple / vec holding the receiver), also reached through super from a subclass method, and neighbouring arities, each call made twice on the same argument objects and required to behave the same; 20 unary and 6 binary constructs over every value / ordered pair; slices over extreme bounds; recursion depth x frame width; nesting ladders to 10^4 on the checked runner and to 2x10^5 / 10^6 on the optimised runner on a thread with an ordinary 8 MiB stack; every uncaught-error program of C17's generator; self-containing data, mutation during iteration, fiber misuse. The run must end Ok or with a reported error, never panic/crash/hang, and a failing built-in call inside try/catch must reach the handler with an error-class instance.",
          "One open finding (KF-C02-03: printing, comparing and hashing data nested 30 000 to 100 000 levels deep overflows an ordinary 8 MiB host stack), attributed by case identity (four shapes of the deep-nesting family ending in a crash). Every other corpus of this framework also runs on the checked runner, where a panic is a mismatch.",
          "5/C02"),
  "C10": ("exhaustive enumeration of build configurations x programs on really built binaries",
-         "The dev profile and the release profile with none/all (quick) or every one of the 32 subsets (thorough) of the five feature switches are built from /repo's working tree with the hooks OFF; every repository script (with its module table), every 4th/2nd program of the generator corpora, C01's heap-shape programs (chains <= 1) and a loop-churn family (8 iterables x 7 kinds of fresh objects allocated in the loop body) run on every configuration; printed lines and outcome (addresses normalised) must be identical across configurations.",
+         "The dev profile and the release profile with none/all (quick) or every one of the 32 subsets (thorough) of the five feature switches are built from /repo's working tree with the hooks OFF; every repository script (with its module table), every 4th/2nd program of the generator corpora, C01's heap-shape programs (chains <= 1) and a loop-churn family (8 iterables x 7 kinds of fresh objects allocated in the loop body) run on every configuration; printed lines and outcome (addresses normalised) must be identical across configurations; every disagreement is observed twice and a configuration that differs from the reference in either round is reported (run-to-run variation of a disagreeing configuration is itself reported with both rounds).",
          "Only programs that exhaust the hooks runner's instruction budget are left out (a panic of the checked build is a disagreement like any other). The fiber/raw-pointer agreement monitor runs in C09's replays.",
          "5/C10"),
  "C16": ("exhaustive enumeration of loop programs + runtime invariant monitor over every allocation event of the optimised build",
-         "Every loop program whose body is a multiset of 1-2 (3) of 22 allocation kinds (incl. a fiber run by a fiber and handed on, and closures made at every level of a recursion) x 3 live-set shapes runs in the release build with the allocation log: at each of ~2M allocation/collection events the pacing rule (no allocation at/above the threshold without a collection; heap <= max(2 x survivors, 64 KiB) + one allocation; threshold = 2 x survivors; collections only when the threshold was reached), continuous and exact accounting, a clean residue after dropping the interpreter, and equal live-object counts after n and 2n iterations are checked.",
+         "Every loop program whose body is a multiset of 1-2 (3) of 27 allocation kinds (incl. a fiber run by a fiber and handed on, closures made at every level of a recursion, thrown objects caught, re-thrown through finally blocks or given up by a finally block left with break / continue) x 3 live-set shapes runs in the release build with the allocation log: at each of ~2M allocation/collection events the pacing rule (no allocation at/above the threshold without a collection; heap <= max(2 x survivors, 64 KiB) + one allocation; threshold = 2 x survivors; collections only when the threshold was reached), continuous and exact accounting, a clean residue after dropping the interpreter, and equal live-object counts after n and 2n iterations - at the end of the run and, by a collection forced from inside the running loop, at the end of iteration n and of iteration 2n - are checked; each verdict is computed twice and a verdict that differs between the two runs is a machinery failure, not a violation.",
          "Interned strings and compiled code are excluded from the n-vs-2n comparison by type name, as the property states.",
          "5/C16"),
 }
